@@ -320,8 +320,8 @@ var supporting = map[string]struct {
 		"'every syntax error cites a line number between 1 and the number of lines' needs the lexer's line counter to move on newlines only (TL3) and the scan position not to jump over text without counting (TL4)."},
 	"C09": {[]func(*Ctx) *rule{ruleCP1, ruleCP10, ruleHS6},
 		"a failed task is 'not treated as up to date by later runs' because its digest is not recorded (CP8), the old one is only restored (CP10), and 'skipped' requires digest equality (CP1) with a digest that can never be the empty 'never succeeded' entry (HS6)."},
-	"C10": {[]func(*Ctx) *rule{ruleHS6},
-		"the invalidation written before the commands start is the empty string: it only invalidates if no digest can be the empty string (HS6)."},
+	"C10": {[]func(*Ctx) *rule{ruleHS6, ruleCP1},
+		"the invalidation written before the commands start is the empty string: it only invalidates if no digest can be the empty string (HS6); and 'never skip a task whose inputs differ from its last successful completion' after a kill needs every skip to be a comparison with the cache at all - a progress file left by a killed run that skips 'finished' tasks bypasses it (CP1)."},
 	"C12": {[]func(*Ctx) *rule{ruleGL1, ruleGL3, ruleTK5, ruleAB2, ruleFD4},
 		"'files matching output globs' are those the shared expansion finds (GL1, GL3, TK5); 'the spokfile' and 'the directory containing it' are what discovery settled (AB2, FD4)."},
 	"C18": {[]func(*Ctx) *rule{ruleHS3},
